@@ -8,7 +8,8 @@ VERIF = os.path.dirname(os.path.dirname(os.path.abspath(__file__)))
 EXTRA = {"C02-B": ["C01", "C08"], "C08-A": ["C01"], "C12-A": [], "C05-A": ["C09"], "C09-B": ["C05"],
          # wave 3: changes in the reader / shared helpers are judged by the property that owns that mechanism as well
          "C01-E": ["C02"], "C01-F": ["C02"], "C08-E": ["C02"], "C18-E": ["C02"], "C03-F": ["C14"], "C13-F": ["C07", "C06"], "C07-F": ["C06"],
-         "C10-E": ["C11"], "C07-E": ["C06"], "C09-D": ["C05"]}
+         "C10-E": ["C11"], "C07-E": ["C06"], "C09-D": ["C05"],
+         "C04-G": ["C02"], "C13-H": ["C06"], "C18-H": ["C02"]}
 tier = sys.argv[1] if len(sys.argv) > 1 else "quick"
 ids = sys.argv[2:] or sorted(os.path.basename(d) for d in glob.glob(VERIF + "/seeded/C*"))
 manifest = json.load(open(VERIF + "/MANIFEST.json"))
